@@ -160,6 +160,8 @@ struct Sim {
     abort_at_step: Option<usize>,
     /// Lower bound of bytes surely sitting unflushed in the raw writer (None = unknown).
     unflushed: Option<usize>,
+    /// Bytes accepted since the last successful flush (any coding).
+    since_flush: usize,
     frames: u64,
     empty_frames: u64,
     ops: Vec<String>,
@@ -274,6 +276,7 @@ impl Sim {
             Ok(k) => {
                 let k = (*k).min(n);
                 self.accepted.extend_from_slice(&buf[..k]);
+                self.since_flush += k;
                 if let Some(rf) = self.reference.as_mut() {
                     if rf.write(&buf).ok() != Some(k) {
                         self.ref_ok = false;
@@ -309,6 +312,7 @@ impl Sim {
         match &r {
             Ok(()) => {
                 self.unflushed = Some(0);
+                self.since_flush = 0;
                 if let Some(rf) = self.reference.as_mut() {
                     if rf.flush().is_err() {
                         self.ref_ok = false;
@@ -369,6 +373,7 @@ pub fn run(ctx: &mut Ctx) -> Result<RunOut, Violation> {
         first_fail_after_drop: false,
         abort_at_step: None,
         unflushed: Some(0),
+        since_flush: 0,
         frames: 0,
         empty_frames: 0,
         ops: Vec::new(),
@@ -445,7 +450,7 @@ pub fn run(ctx: &mut Ctx) -> Result<RunOut, Violation> {
     // ---- The history.
     let want_abort = matches!(focus, "C11" | "C20" | "C12") && ctx.tape.chance(if focus == "C11" { 2 } else { 1 }, 4);
     let want_body_drop = focus == "C11" && !want_abort && ctx.tape.chance(2, 3);
-    let n_ops = 1 + ctx.tape.draw(12);
+    let n_ops = 1 + ctx.tape.draw(if crate::core::deep() { 30 } else { 12 });
     let fault_at = ctx.tape.draw(n_ops + 1);
     let mut flush_checks = 0u64;
     let mut kinds: Vec<&'static str> = Vec::new();
@@ -520,16 +525,18 @@ pub fn run(ctx: &mut Ctx) -> Result<RunOut, Violation> {
                         if dead_before && r.is_ok() && n > 0 {
                             return violation("C11", "write-after-abort-or-failure-succeeded", format!("{cfg_desc}: ops {:?}", sim.ops));
                         }
-                        if after_drop && !sim.gzip && n >= cap && r.is_ok() && n > 0 {
-                            return violation("C11", "chunk-completing-write-after-body-drop-succeeded", format!("{cfg_desc}: ops {:?}", sim.ops));
-                        }
                     }
                     _ => {}
                 }
             }
             3 => {
                 // write_all(n) as a loop over write, like std's.
-                let n = 1 + t.draw((2 * sim.cfg.chunk).min(100_000) as u32 + 1) as usize;
+                let n = if sim.cfg.chunk <= 512 && t.chance(1, 4) {
+                    // a long backlog: 33..160 chunks in one go
+                    sim.cfg.chunk * (33 + t.draw(128) as usize) + t.draw(sim.cfg.chunk as u32) as usize
+                } else {
+                    1 + t.draw((2 * sim.cfg.chunk).min(100_000) as u32 + 1) as usize
+                };
                 kinds.push("wall");
                 if t.chance(1, 2) {
                     // The writer's own `write_all` (std's default unless the crate overrides it).
@@ -548,6 +555,7 @@ pub fn run(ctx: &mut Ctx) -> Result<RunOut, Violation> {
                     match &r {
                         Ok(()) => {
                             sim.accepted.extend_from_slice(&buf);
+                            sim.since_flush += n;
                             if sim.body_gone {
                                 sim.accepted_after_body_drop += n;
                             }
@@ -589,7 +597,10 @@ pub fn run(ctx: &mut Ctx) -> Result<RunOut, Violation> {
             }
             4 | 5 => {
                 kinds.push("flush");
-                let surely_unflushed = sim.unflushed.map(|u| u > 0).unwrap_or(false);
+                // Bytes that this flush surely has to hand over: for identity coding a partial
+                // chunk known to sit in the writer, for gzip anything accepted since the last
+                // successful flush (an implementation may skip a flush with nothing new).
+                let surely_unflushed = if sim.gzip { sim.since_flush > 0 } else { sim.unflushed.map(|u| u > 0).unwrap_or(false) };
                 let after_drop = sim.body_gone;
                 let dead_before = sim.writer_dead || sim.aborted;
                 let Some(r) = sim.flush() else { break };
@@ -599,7 +610,7 @@ pub fn run(ctx: &mut Ctx) -> Result<RunOut, Violation> {
                     if dead_before && r.is_ok() {
                         return violation("C11", "flush-after-abort-or-failure-succeeded", format!("{cfg_desc}: ops {:?}", sim.ops));
                     }
-                    if after_drop && r.is_ok() && (sim.gzip || surely_unflushed) {
+                    if after_drop && r.is_ok() && surely_unflushed {
                         return violation("C11", "flush-after-body-drop-succeeded", format!("{cfg_desc}: a flush that had bytes to hand over succeeded after the body was dropped; ops {:?}", sim.ops));
                     }
                 }
@@ -618,7 +629,12 @@ pub fn run(ctx: &mut Ctx) -> Result<RunOut, Violation> {
                             // Whose fault? If flate2 alone, fed the same calls into a plain Vec,
                             // has emitted exactly the bytes the consumer received, http-serve
                             // handed over everything it was given: the compressor withheld data.
-                            let same_as_flate2_alone = sim.ref_ok && sim.reference.as_ref().map(|r| r.get_ref()[..] == sim.delivered[..]).unwrap_or(false);
+                            let same_as_flate2_alone = sim.ref_ok
+                                && sim
+                                    .reference
+                                    .as_ref()
+                                    .map(|r| r.get_ref().len() == sim.delivered.len() && gunzip_prefix(r.get_ref()).0 == dec)
+                                    .unwrap_or(false);
                             if same_as_flate2_alone {
                                 ctx.stats.bump("c09_compressor_withheld_bytes_after_flush");
                                 ctx.report(Violation { prop: "C09", oracle: "compressor-withholds-flushed-bytes", msg: format!("flate2 alone withholds the same bytes; {detail}") })?;
@@ -639,6 +655,35 @@ pub fn run(ctx: &mut Ctx) -> Result<RunOut, Violation> {
                 sim.poll_until_pending();
                 sim.ops.push("poll-until-pending".into());
             }
+        }
+    }
+
+    // ---- C11: a writer whose body is gone must be told before it has buffered "without bound".
+    // Tolerant bound (an implementation may round its chunk capacity up): 2 chunks + 8 KiB for
+    // identity coding, one chunk + 1 MiB of incompressible input for gzip.
+    if focus == "C11" && sim.body_gone && sim.panic.is_none() && sim.w.is_some() && !sim.writer_dead && !sim.aborted && (!sim.gzip || ctx.tape.chance(1, 4)) {
+        let limit = if sim.gzip { sim.cfg.chunk + (1 << 20) } else { 2 * sim.cfg.chunk + 8192 };
+        let piece = sim.cfg.chunk.clamp(64, 16_384);
+        let saved_kind = sim.cfg.payload;
+        sim.cfg.payload = 0; // incompressible
+        let mut told = false;
+        let mut guard = 0;
+        while sim.accepted_after_body_drop <= limit && guard < 100_000 {
+            guard += 1;
+            match sim.write(piece) {
+                Some(Ok(_)) => {}
+                Some(Err(_)) => {
+                    told = true;
+                    break;
+                }
+                None => break,
+            }
+        }
+        sim.cfg.payload = saved_kind;
+        sim.ops.push(format!("probe: kept writing {piece}-byte pieces -> told={told} after {} bytes", sim.accepted_after_body_drop));
+        ctx.stats.bump("c11_body_drop_probes");
+        if !told && sim.panic.is_none() {
+            return violation("C11", "writer-buffers-after-body-drop", format!("{cfg_desc}: {} bytes were accepted without a single error after the body was dropped (bound {limit}); ops {:?}", sim.accepted_after_body_drop, sim.ops));
         }
     }
 
@@ -759,9 +804,6 @@ pub fn run(ctx: &mut Ctx) -> Result<RunOut, Violation> {
             }
             if sim.body_gone {
                 ctx.stats.bump("c11_body_drops_judged");
-                if !sim.gzip && sim.accepted_after_body_drop >= sim.cfg.chunk {
-                    return violation("C11", "writer-buffers-after-body-drop", format!("{cfg_desc}: {} bytes were accepted without error after the body was dropped (chunk size {}); ops {:?}", sim.accepted_after_body_drop, sim.cfg.chunk, sim.ops));
-                }
                 return Ok(RunOut { sig, nontrivial: true });
             }
             Ok(RunOut { sig, nontrivial: false })
